@@ -272,7 +272,7 @@ INDEX_MODE = {
         (4, "s"): 7,
         (4, "b"): 6,
 
-        (5, ""): 9,
+        (5, ""): 8,
         (5, "s"): 9,
         (5, "b"): 8,
 
@@ -476,7 +476,7 @@ SCALES = {
     "m": [0, 2, 3, 5, 7, 8, 11],
     "mm": [0, 2, 3, 5, 7, 9, 11],
     "dorian": [0, 2, 3, 5, 7, 9, 10],
-    "phrygian": [0, 1, 3, 5, 7, 9, 10],
+    "phrygian": [0, 1, 3, 5, 7, 8, 10],
     "lydian": [0, 2, 4, 6, 7, 9, 11],
     "mixolydian": [0, 2, 4, 5, 7, 9, 10],
     "aeolian": [0, 2, 3, 5, 7, 8, 10],
